@@ -101,6 +101,11 @@ func (x *fleetExec) chmap(e engine.Event, nd *knode, sig string) bool {
 		nm = nd.mapping
 		spec = &dst.spec
 	}
+	if nm != nd.mapping && mapKey(spec) == nd.mkey && e.M%2 == 0 {
+		// the caller hands the sketch its own mapping object (a pure unit change when the scale is not 1)
+		nm = mappingOf(nd.real)
+		x.st.Probe("chmap-with-the-sketch's-own-mapping-object")
+	}
 	var posArg, negArg store.Store
 	x.lib("ChangeMapping", sig, func() {
 		switch s := nd.real.(type) {
